@@ -6,7 +6,7 @@ CONSTANTS Cases, Order
 VARIABLES cfg, st
 BaseModel(no, nv, seed) ==
   [noa |-> no, nob |-> 0, nva |-> nv, nvb |-> 0, seed |-> seed,
-   restricted |-> FALSE, spincons |-> FALSE, fock |-> "diag", eri |-> "gen",
+   restricted |-> FALSE, spincons |-> FALSE, scn |-> <<>>, fock |-> "diag", eri |-> "gen",
    re |-> 2, rD |-> 0, rf |-> 3, rv |-> 0, rV |-> 1, rU |-> 0, umat |-> <<>>,
    bkn |-> <<1, 0, 1>>, tabs |-> << <<>>, <<>>, <<>> >>]
 CaseSet == CASE Cases = 1 -> {<<"pp", 2, 2, 2>>, <<"pp", 3, 2, 2>>, <<"ip", 3, 2, 2>>, <<"ea", 2, 3, 2>>}
